@@ -160,7 +160,9 @@ func zzC05Boot(t testing.TB, dir string) (sys *zzC05Sys) {
 	config.UserRules = []string{"||custom-blocked.example^"}
 	config.Filtering.SafeFSPatterns = []string{filepath.Join(dir, "*.txt")}
 	config.Filtering.FiltersUpdateIntervalHours = 1
-	config.Filtering.Rewrites = nil
+	// A CNAME rewrite whose target is resolved upstream: such a request has its
+	// question rewritten while it is in flight and restored afterwards.
+	config.Filtering.Rewrites = []*filtering.LegacyRewrite{{Domain: "cname-rw.example", Answer: "plain-target.example"}}
 	config.TLS = tlsConfigSettings{}
 	config.DHCP = &dhcpd.ServerConfig{
 		Enabled:         true,
@@ -589,7 +591,7 @@ func zzC05Families(sys *zzC05Sys) (fams map[string]func(rng *rand.Rand, i int)) 
 var zzC05Names = []string{
 	"plain.example", "listed.example", "sub.listed.example", "custom-blocked.example", "flip.example",
 	"rw0.example", "rw1.example", "access-blocked-0.example", "x.access-rule.example", "www.youtube.com",
-	"ignored0.example", "gen1.example", "malware.example", "sub.malware.example", "Mixed.CASE.example", "dhcphost1.lan", "www.google.com",
+	"ignored0.example", "gen1.example", "malware.example", "sub.malware.example", "cname-rw.example", "Mixed.CASE.example", "dhcphost1.lan", "www.google.com",
 }
 
 // TestZZVerifC05Stress runs every family named in VERIF_C05_FAMILIES (comma
@@ -930,7 +932,7 @@ func TestZZVerifC05Gated(t *testing.T) {
 
 			// Names that reach the upstream under every configuration the
 			// families install, plus ones whose fate the operation changes.
-			qnames := []string{"plain.example", "flip.example", "rw0.example", "www.youtube.com", "gen1.example", "other-plain.example"}
+			qnames := []string{"plain.example", "flip.example", "rw0.example", "www.youtube.com", "gen1.example", "cname-rw.example"}
 			out := make(chan qres, len(qnames))
 			for qi, name := range qnames {
 				go func(qi int, name string) {
